@@ -187,6 +187,14 @@ impl LayoutSpec {
                 plan.pre_files.push((format!("blkblk{:05}.dat", n), vec![0x45; 600]));
                 plan.pre_files.push((format!("blk{:05}.dat.dat.dat", n), vec![0x48; 600]));
                 plan.extra_files.push((format!("blkblkblk{:05}.dat", n), vec![0x49; 600]));
+                // unreferenced blk files whose number agrees with an indexed one modulo 2^32 / 2^16
+                for (k, step) in [1u64 << 32, 1u64 << 16].iter().enumerate() {
+                    let alias = (n % step).wrapping_add(*step);
+                    if !used.contains(&alias) {
+                        let entry = (blk_name(alias, 5), vec![0x4a + k as u8; 900]);
+                        if k == 0 { plan.pre_files.push(entry) } else { plan.extra_files.push(entry) }
+                    }
+                }
                 plan.extra_files.push((format!("blk{:05}.dat.tmp", n), vec![0x46; 60]));
                 plan.extra_files.push((format!("blk{:05}.DAT", n), vec![0x47; 60]));
             }
@@ -264,7 +272,19 @@ pub fn gap(tier: crate::gen::Tier, big: bool) -> BS<Gap> {
 pub fn file_slots(n: usize) -> BS<Vec<FileSlot>> {
     let number = prop_oneof![6 => 0u64..40, 2 => 40u64..100_000, 1 => 100_000u64..10_000_000_000, 1 => Just(u64::MAX), 1 => (u64::MAX - 1000)..u64::MAX];
     let pad = prop_oneof![6 => Just(5u8), 1 => Just(0u8), 1 => Just(1u8), 1 => Just(8u8), 1 => Just(13u8)];
-    vec((number, pad).prop_map(|(number, pad)| FileSlot { number, pad }), n).boxed()
+    (vec((number, pad).prop_map(|(number, pad)| FileSlot { number, pad }), n), prop_oneof![3 => Just(0u8), 1 => 1u8..4], any::<u16>(), any::<u16>())
+        .prop_map(|(mut v, alias, a, b)| {
+            // some file numbers agree with another one modulo 2^32 / 2^16 (narrowing of the number must not alias them)
+            if alias > 0 && v.len() >= 2 {
+                let (i, j) = (crate::spec::mono(a, v.len()), crate::spec::mono(b, v.len()));
+                if i != j {
+                    let step = match alias { 1 => 1u64 << 32, 2 => 1u64 << 16, _ => 1u64 << 48 };
+                    v[j].number = (v[i].number % step).wrapping_add(step.wrapping_mul(1 + (b as u64 % 3)));
+                }
+            }
+            v
+        })
+        .boxed()
 }
 
 pub fn xor_key() -> BS<Option<Vec<u8>>> {
